@@ -313,6 +313,30 @@ Definition capture_replay_ops (rnd : Z -> Z) (hub : hubcfg) (d : domain) (start 
 Definition set_rel (o : pout) (r : Z) : pout :=
   {| o_time := o_time o; o_khz := o_khz o; o_frame := o_frame o; o_a := o_a o; o_b := o_b o; o_rel := r |}.
 
+(** ** Two writer threads on one monitor.
+    process_packet takes _writer_lock FIRST and reads the local clock, stamps and writes the
+    packet while holding it: at lock granularity a call is one atomic step, so an execution of
+    two threads handing over [l1] and [l2] is a merge of the two lists chosen by the scheduler
+    ([true] = the first thread gets the lock), and the k-th call to get the lock makes the
+    k-th reading of the local clock. *)
+Fixpoint merge {A} (sched : list bool) (l1 l2 : list A) : list A :=
+  match sched with
+  | [] => l1 ++ l2
+  | true :: s => match l1 with a :: l1' => a :: merge s l1' l2 | [] => l2 end
+  | false :: s => match l2 with b :: l2' => b :: merge s l1 l2' | [] => l1 end
+  end.
+
+Definition set_now (p : pin) (now : Z) : pin :=
+  {| i_frame := i_frame p; i_crc_ok := i_crc_ok p; i_meta := i_meta p; i_now := now |}.
+(** the packets in the order the lock was taken, stamped with the clock readings in the order
+    they were made *)
+Definition stamped (readings : list Z) (l : list pin) : list pin :=
+  map (fun x => set_now (snd x) (fst x)) (combine readings l).
+
+Definition concurrent_capture (rnd : Z -> Z) (hub : hubcfg) (d : domain) (start : option Z)
+           (sched : list bool) (readings : list Z) (l1 l2 : list pin) : list pout :=
+  capture_replay rnd hub d start (stamped readings (merge sched l1 l2)).
+
 (** ** The property's items: channel, signal strength, direction, integrity flag.
     An absent direction and BleDirection.UNKNOWN are the same statement. *)
 Definition canon_dir (d : domain) (x : option Z) : option Z :=
